@@ -35,7 +35,7 @@ import re as _re
 import sys
 import uuid
 from fractions import Fraction
-from typing import Any, Dict, List, Optional, Tuple, Union
+from typing import Dict, List, Optional, Tuple, Union
 
 from ..lib import common, tlc
 from ..lib.evidence import Report, machinery_failure
@@ -708,11 +708,6 @@ def replay_secret(rep, lines, scratch):
 OPS = [">", ">=", "<", "<=", "==", "!="]
 
 
-def q_small(rnd):
-    """a small dyadic rational k/4"""
-    return Fraction(rnd.randint(-14, 14), rnd.choice([1, 1, 2, 4]))
-
-
 def spell_number(rnd, q: Fraction):
     """a text spelling of q that Python's float() reads exactly (q = k/4, |k| small)"""
     sign = "-" if q < 0 else rnd.choice(["", "", "+"])
@@ -734,6 +729,8 @@ def spell_number(rnd, q: Fraction):
 
 def junk_text(rnd):
     s = "".join(rnd.choice("01_.+- xeE5") for _ in range(rnd.randint(0, 5)))
+    if _re.search(r"[eE][-+]?_?\d_?\d", s):
+        return "x" + s  # exponents of two and more digits are beyond TLC's 32-bit integers
     with contextlib.suppress(Exception):  # keep the numbers within what the harness can encode exactly (a filter, not an oracle)
         v = float(s)
         if v == v and (abs(v) > 10**5 or v.as_integer_ratio()[1] > 4096):
@@ -1163,9 +1160,45 @@ def _short(o):
     return o if len(s) < 1500 else json.loads(json.dumps({k: (v if len(json.dumps(v)) < 500 else "...") for k, v in o.items()}))
 
 
+def replay_file(path) -> int:
+    """./check C20 --replay <file>: print the recorded case and run it again on the real code"""
+    rec = json.loads(open(path).read())
+    print(json.dumps(rec, indent=1)[:6000])
+    case = rec.get("case", {})
+    case = case.get("observation", case) if "observation" in case else case
+    try:
+        if "candidate" in case or "T" in case:  # a restricted number case
+            tj, c, chan = case.get("type") or case["T"], case.get("candidate") or case["x"], case.get("channel") or case["chan"]
+            try:
+                T = build_num_type(tj)
+            except ValueError as ex:  # the key belongs to a predefined type (bound from TLC's "named" part in a normal run)
+                T = getattr(jtyping, str(ex).rstrip(".").rsplit(" ", 1)[-1])
+            ob = run_channel(T, _BASES[tj["base"]], make_parser(T), chan, gamma_cand(c))
+            print(f"RE-RUN {type_label(tj)} on {cand_label(c)} via {chan}: {ob}")
+        elif "regex" in case or "re" in case:
+            term, chan = case.get("regex") or case["re"], case.get("channel") or case["chan"]
+            text = case["text"] if "text" in case else txt(case["x"]["t"])
+            T = build_str_type(re_pattern(term))
+            print(f"RE-RUN {re_pattern(term)!r} on {text!r} via {chan}: {run_channel(T, str, make_parser(T), chan, text)}")
+        elif "abstract_value" in case or "ty" in case:
+            ty, f, chan = case.get("type") or case["ty"], case.get("abstract_value") or case["f"], case.get("channel") or case["chan"]
+            if ty != "DecimalX":
+                v = gamma_reg(ty, f)
+                print(f"RE-RUN {ty} {v!r} via {chan}: {roundtrip(ty, v, chan)}")
+        elif "context" in case:
+            sc = common.scratch("c20r")
+            try:
+                for label, text in secret_dumps(case["context"], case["secret"], sc):
+                    print(f"RE-RUN {case['context']} {label}: secret occurs = {case['secret'] in text}")
+            finally:
+                common.rm(sc)
+    except BaseException as ex:  # noqa: BLE001
+        print(f"RE-RUN failed: {ex!r}")
+    return 0
+
+
 if __name__ == "__main__":
     args = sys.argv[1:]
     if args and args[0] == "--replay":
-        print(open(args[1]).read())
-        sys.exit(0)
+        sys.exit(replay_file(args[1]))
     sys.exit(main(args))
